@@ -3438,6 +3438,10 @@ operatorSwitch:
 			c.emit(dropOp)
 			c.emit(newOperationBr(functionFrame.asLabel()))
 		} else {
+			if c.ensureTermination {
+				// A cycle made of tail calls only never passes a loop header.
+				c.emit(newOperationBuiltinFunctionCheckExitCode())
+			}
 			c.emit(newOperationTailCallReturnCall(index))
 		}
 
@@ -3456,6 +3460,9 @@ operatorSwitch:
 
 		functionFrame := c.controlFrames.functionFrame()
 		dropRange := c.getFrameDropRange(functionFrame, false)
+		if c.ensureTermination {
+			c.emit(newOperationBuiltinFunctionCheckExitCode())
+		}
 		c.emit(newOperationTailCallReturnCallIndirect(typeIndex, tableIndex, dropRange, functionFrame.asLabel()))
 
 		// Return operation is stack-polymorphic, and mark the state as unreachable.
